@@ -8,7 +8,7 @@ from ..model import Program, AnalysisError, own_nodes, norm, names_in
 from ..cfg import cfg_of
 from ..guards import Env, walk, collect_atoms, valuations, iff_table
 from ..report import Report
-from ..util import callee_last, enclosing_stmt, parents
+from ..util import inline_temps, callee_last, enclosing_stmt, parents
 
 UT = 'fggs.utils'
 
@@ -16,7 +16,7 @@ UT = 'fggs.utils'
 def run(prog: Program, rep: Report, tier: str) -> None:
     rep.rule('C19-D1', 'vertex/edge-source coverage: nonterminal_graph takes its vertices from the unfiltered nonterminals() registry and adds X->Y for an rhs edge of a rule of X iff the edge label Y is a nonterminal (truth table), over all_rules() x rhs.edges() without filtering')
     rep.rule('C19-D2', 'scc protocol: the outer loop ranges over the whole graph and starts a visit iff the vertex is unvisited; a visit recurses into every unvisited successor; every vertex is pushed once at visit entry; components are appended in emission order and returned as built')
-    rep.rule('C19-D3', 'consumers: sum_products and viterbi iterate scc(nonterminal_graph(fgg)) directly (no reverse/sort/filter) and store a value for every label of every component before the next component is processed')
+    rep.rule('C19-D3', 'consumers: sum_products and viterbi iterate scc(nonterminal_graph(fgg)) directly (no reverse/sort/filter) and store a value for every label of every component before the next component is processed; every name the per-component loop body binds and reads is bound on all paths of the same iteration before the read (no flag, option set or result carried over from the previous component; inner for-loops assumed to run at least once)')
     rep.not_decided += ["correctness of Tarjan's lowlink bookkeeping (an algorithm-template match would be a frozen-fragment rule)"]
     ng = prog.func(UT, 'nonterminal_graph')
     p0 = ng.positional_params()[0]
@@ -58,7 +58,7 @@ def run(prog: Program, rep: Report, tier: str) -> None:
             if unknown and bad:
                 bad = [b + ' -- a dependency can be dropped by a condition unrelated to the label kind' for b in bad[:2]]
             # the store is g[r.lhs][e.label]
-            tgt_ok = any(norm(cfg.nodes[n].stmt.targets[0]).endswith(f"[{r}.lhs][{e}.label]") for n in stores)
+            tgt_ok = any(norm(inline_temps(il, cfg.nodes[n].stmt.targets[0])).endswith(f"[{r}.lhs][{e}.label]") for n in stores)
             rep.ob('C19-D1 edge-coverage', ng.fq(), f"g[{r}.lhs][{e}.label] recorded iff {e}.label is a nonterminal", ng.loc(il), not bad and tgt_ok,
                    '; '.join(bad) if bad else ('truth table agrees' if tgt_ok else 'the recorded edge is not lhs -> label of the rhs edge'))
     if found == 0:
@@ -147,6 +147,7 @@ def run(prog: Program, rep: Report, tier: str) -> None:
            f"operations on the result list: {emits}; returned: {norm(rets[0]) if rets else None}")
     # D3 consumers
     n_cons = 0
+    n_state = 0
     for mod, fn in (('fggs.sum_product', 'sum_products'), ('fggs.viterbi', 'viterbi')):
         f = prog.func(mod, fn)
         fp = f.positional_params()[0]
@@ -166,7 +167,11 @@ def run(prog: Program, rep: Report, tier: str) -> None:
                 return cfgf.nodes[n].kind == 'stmt' and any(isinstance(x, ast.Call) and callee_last(x) == 'update' for x in ast.walk(st))
             okp, _ = cfgf.all_paths_pass(be, upd, targets={hdr, cfgf.exit})
             rep.ob('C19-D3 consumers', f.fq(), f"values of component {comp} are stored before the next component", f.loc(l), okp, '' if okp else 'an iteration can finish without storing the component\'s values')
+            # what is computed for a component is computed from that component: no flag / option / result left over from the previous one
+            from ..rules.loopstate import check_iteration_local
+            n_state += check_iteration_local(rep, 'C19-D3 component-local state', f, l)
     rep.floor('C19-D3', n_cons, 2)
+    rep.floor('C19-D3 component-local names', n_state, 8)
 
 
 def tarjan_lowlink(rep: Report, prog: Program, vf, visit_name: str, g0: str, visited_set: str) -> None:
@@ -215,7 +220,12 @@ def tarjan_lowlink(rep: Report, prog: Program, vf, visit_name: str, g0: str, vis
             reach_unvisited = walk(vcfg, be, Env(atoms={vis[0]: False}), loop_header_stop=hdr, unknown='both')
             if n in reach_unvisited and other:
                 low = norm(st.targets[0].value)
-                ok = norm(other[0]) == f"{low}[{w}]"
+                src = [other[0]]
+                if isinstance(other[0], ast.Name):
+                    # the lowered-to value has a name: every binding of it that reaches the update on the unvisited path counts
+                    src = [vcfg.nodes[m].stmt.value for m in reach_unvisited if vcfg.nodes[m].kind == 'stmt' and isinstance(vcfg.nodes[m].stmt, ast.Assign)
+                           and any(isinstance(t, ast.Name) and t.id == other[0].id for t in vcfg.nodes[m].stmt.targets)] or [other[0]]
+                ok = all(norm(x) == f"{low}[{w}]" for x in src)
                 rep.ob('C19-D2 scc-protocol', vf.fq(), norm(st), vf.loc(st), ok, 'after the recursive visit the successor\'s low-link is propagated' if ok else 'the tree-edge update does not read the successor\'s low-link')
     # root test and pop-until-v
     pops = [n for n in own_nodes(vf.node) if isinstance(n, ast.While)]
@@ -240,3 +250,48 @@ def tarjan_lowlink(rep: Report, prog: Program, vf, visit_name: str, g0: str, vis
                 if bound and any(isinstance(x, ast.Call) and callee_last(x) == 'pop' for x in ast.walk(wl)) and (set(bound) & names_in(wl.test)):
                     ok = True
     rep.ob('C19-D2 scc-protocol', vf.fq(), f"a component is popped (until {v}) exactly when {v} is a root (low-link == index)", vf.loc(), ok, '' if ok else 'root test / pop loop not recognised or altered')
+    # the on-stack set mirrors the stack: what is pushed is added to it, what is popped is removed from it (in the same iteration)
+    onset = None
+    for l in [n for n in own_nodes(vf.node) if isinstance(n, ast.For)]:
+        for x in ast.walk(l):
+            if isinstance(x, ast.Compare) and isinstance(x.ops[0], (ast.In, ast.NotIn)) and norm(x.left) == norm(l.target) and norm(x.comparators[0]) != visited_set:
+                onset = norm(x.comparators[0])
+    if onset is not None:
+        scopes = [vf] + [c for c in (vf.parent.children if vf.parent is not None else []) if not c.is_lambda and c is not vf]
+        for h in scopes:
+            hcfg = cfg_of(h)
+            for k, nd in hcfg.nodes.items():
+                st = nd.stmt
+                if nd.kind != 'stmt' or st is None:
+                    continue
+                pops = [x for x in ast.walk(st) if isinstance(x, ast.Call) and isinstance(x.func, ast.Attribute) and x.func.attr == 'pop' and not x.args
+                        and isinstance(x.func.value, ast.Name) and x.func.value.id != onset]
+                pushes = [x for x in ast.walk(st) if isinstance(x, ast.Call) and isinstance(x.func, ast.Attribute) and x.func.attr == 'append' and len(x.args) == 1
+                          and isinstance(x.func.value, ast.Name)]
+                for x in pops:
+                    stack_name = x.func.value.id
+                    if not any(isinstance(y, ast.Call) and isinstance(y.func, ast.Attribute) and y.func.attr == 'append' and norm(y.func.value) == stack_name for f2 in scopes for y in own_nodes(f2.node)):
+                        continue
+                    W = norm(st.targets[0]) if isinstance(st, ast.Assign) and st.value is x else None
+                    rem = lambda m, W=W: hcfg.nodes[m].kind == 'stmt' and any(isinstance(y, ast.Call) and isinstance(y.func, ast.Attribute) and y.func.attr in ('remove', 'discard')
+                                                                               and norm(y.func.value) == onset and y.args and norm(y.args[0]) == W for y in ast.walk(hcfg.nodes[m].stmt))
+                    loops = nd.loops
+                    targets = {loops[-1], hcfg.exit} if loops else {hcfg.exit}
+                    nxt = [b for b, lab in hcfg.succ[k] if lab != 'exc']
+                    okp = W is not None and bool(nxt) and hcfg.all_paths_pass(nxt[0], rem, targets=targets)[0]
+                    rep.ob('C19-D2 scc-protocol', h.fq(), f"{norm(st)}: the popped vertex leaves `{onset}`", h.loc(st), okp,
+                           'removed from the on-stack set in the same iteration' if okp else
+                           f"a vertex popped off `{stack_name}` stays in `{onset}`: a later edge into its finished component is then treated as a back edge and merges components")
+                for x in pushes:
+                    stack_name = norm(x.func.value)
+                    if not any(isinstance(y, ast.Call) and isinstance(y.func, ast.Attribute) and y.func.attr == 'pop' and norm(y.func.value) == stack_name for f2 in scopes for y in own_nodes(f2.node)):
+                        continue
+                    X = norm(x.args[0])
+                    add = lambda m, X=X: hcfg.nodes[m].kind == 'stmt' and any(isinstance(y, ast.Call) and isinstance(y.func, ast.Attribute) and y.func.attr == 'add'
+                                                                               and norm(y.func.value) == onset and y.args and norm(y.args[0]) == X for y in ast.walk(hcfg.nodes[m].stmt))
+                    # before the successors are explored: before the first loop / the exit
+                    first_loops = {m for m, nd2 in hcfg.nodes.items() if nd2.kind == 'for'}
+                    nxt = [b for b, lab in hcfg.succ[k] if lab != 'exc']
+                    okp = bool(nxt) and hcfg.all_paths_pass(nxt[0], add, targets=first_loops | {hcfg.exit})[0]
+                    rep.ob('C19-D2 scc-protocol', h.fq(), f"{norm(st)}: the pushed vertex enters `{onset}`", h.loc(st), okp,
+                           'added to the on-stack set before its successors are explored' if okp else f"a vertex pushed on `{stack_name}` is not recorded in `{onset}`: back edges to it are ignored and its cycle is split")
